@@ -43,6 +43,7 @@ pub struct OpW {
     pub burst: u32,
     pub warm_insert: u32,
     pub counters: u32,
+    pub fresh_lookup: u32,
 }
 
 impl Default for OpW {
@@ -63,6 +64,7 @@ impl Default for OpW {
             burst: 0,
             warm_insert: 2,
             counters: 1,
+            fresh_lookup: 0,
         }
     }
 }
@@ -99,6 +101,9 @@ pub fn profile_for(prop: &str, thorough: bool) -> Profile {
     };
     match prop {
         "C01" => {
+            p.w.burst = 1;
+            p.w.fresh_lookup = 3;
+            p.burst_sizes = vec![130, 600];
             p.w.enter_beyond = 8;
             p.w.iter = 7;
         }
@@ -114,12 +119,18 @@ pub fn profile_for(prop: &str, thorough: bool) -> Profile {
             p.w.synced_insert = 6;
         }
         "C05" => {
+            p.w.burst = 2;
+            p.w.fresh_lookup = 7;
+            p.burst_sizes = vec![130, 600];
             p.exp = ExpMode::Ttl;
             p.w.advance_to = 16;
             p.w.iter = 7;
             p.w.contains = 9;
         }
         "C06" => {
+            p.w.burst = 2;
+            p.w.fresh_lookup = 7;
+            p.burst_sizes = vec![130, 600];
             p.exp = ExpMode::Tti;
             p.w.advance_to = 16;
             p.w.iter = 9;
@@ -183,6 +194,8 @@ pub fn profile_for(prop: &str, thorough: bool) -> Profile {
             p.w.iter = 0;
         }
         "C16" => {
+            p.w.burst = 1;
+            p.burst_sizes = vec![130, 600];
             p.w.iter = 20;
         }
         _ => {}
@@ -225,6 +238,7 @@ enum RawOp {
     Burst { n: u8, w: u8, gets: bool },
     WarmInsert { k: u16, w: u8, n: u8 },
     Counters,
+    FreshLookup { sel: u16, contains: bool },
 }
 
 const DURS: [Option<u64>; 9] = [
@@ -299,6 +313,7 @@ fn raw_op(w: &OpW) -> BoxedStrategy<RawOp> {
     add(w.burst, (any::<u8>(), any::<u8>(), any::<bool>()).prop_map(|(n, w, gets)| RawOp::Burst { n, w, gets }).boxed());
     add(w.warm_insert, (any::<u16>(), any::<u8>(), any::<u8>()).prop_map(|(k, w, n)| RawOp::WarmInsert { k, w, n }).boxed());
     add(w.counters, Just(RawOp::Counters).boxed());
+    add(w.fresh_lookup, (any::<u16>(), any::<bool>()).prop_map(|(sel, contains)| RawOp::FreshLookup { sel, contains }).boxed());
     proptest::strategy::Union::new_weighted(v).boxed()
 }
 
@@ -461,6 +476,13 @@ fn build_case(p: &Profile, rc: RawCfg, raw_ops: Vec<RawOp>) -> Case {
                 push(&mut ops, Op::Insert { k, w: wmap(k, w) })
             }
             RawOp::Counters => push(&mut ops, Op::Counters),
+            RawOp::FreshLookup { sel, contains } => {
+                if contains {
+                    push(&mut ops, Op::ContainsFresh { sel })
+                } else {
+                    push(&mut ops, Op::GetFresh { sel })
+                }
+            }
         }
     }
 
